@@ -83,7 +83,7 @@ class MConc:
         self.inv = {c: t for t, c in self.vn.items()}
         self.sn, self.sinv = {}, {}
         for v in inst["vars"]:
-            k = rng.choice(["str", "int", "range", "tuple", "mixed"]) if state_kind == "any" else state_kind
+            k = rng.choice(["str", "int", "range", "perm", "tuple", "mixed"]) if state_kind == "any" else state_kind
             self.sn[v] = state_names(self.dom[v], rng, k)
             self.sinv[v] = {c: t for t, c in self.sn[v].items()}
         # BN builders (bnutil) use the same attribute names
